@@ -4,5 +4,5 @@ s=/verif/seeded/$1; shift
 cd /repo || exit 2
 [ -z "$(git status --porcelain)" ] || { echo "/repo not clean"; exit 2; }
 git apply $s/patch.diff 2>/dev/null || patch -p1 -s < $s/patch.diff || { echo "PATCH FAILED"; git checkout -q -- .; exit 2; }
-for p in "$@"; do (cd /verif && bin/govc check $p 2>&1 | grep -E "^property|VIOLATION|KNOWN" | cut -c1-260 | head -8); done
+for p in "$@"; do (cd /verif && GOVC_OUT=/var/tmp/govc-seedrun bin/govc check $p 2>&1 | grep -E "^property|VIOLATION|KNOWN" | cut -c1-260 | head -8); done
 git -C /repo checkout -q -- .; git -C /repo clean -fdq -e verif_contracts.go
